@@ -2,6 +2,7 @@ import LanceModel.C25.ReadLemmas
 import LanceModel.C25.MapRangeLemmas
 import LanceModel.C25.SchedLemmas
 import LanceModel.C25.RepIndexLemmas
+import LanceModel.C25.EndToEnd
 /-!
 # C25 — property theorems
 
@@ -589,5 +590,15 @@ example : scheduleInstructions (decodeRepIndex [(1, 2), (3, 0)] false 0) [⟨0, 
     = some [⟨0, .absent, 0, 2, true⟩, ⟨1, .take, 0, 0, false⟩, ⟨1, .skip, 1, 1, false⟩] := by rfl
 example : buildRepIndex [[(⟨true, true, 1⟩ : Ent Nat), ⟨false, true, 2⟩, ⟨true, true, 3⟩], exPre ++ exRows.flatten]
     = [(1, 1), (4, 0)] := by rfl
+
+/-! ## end to end inside a mini-block page (`EndToEnd.lean`)
+
+`miniblock_select_rows`: for pages whose rows do not span chunk boundaries (no preamble, no trailer), for every list of
+non-empty in-page ranges (any order), `schedule_instructions` on the stored repetition index
+(`mkBlocks_is_stored_index`), one `drain` of everything scheduled and `decode` (`map_range` + the copies) return
+exactly the levels and the visible value slots of the requested rows, in order. -/
+
+example : scheduleInstructions (mkBlocks ([exRows, exRows] : List (List (List (Ent Nat)))) 0) [⟨1, 2⟩, ⟨2, 5⟩]
+    = some [⟨0, .absent, 1, 2, false⟩, ⟨1, .absent, 0, 2, false⟩] := by rfl
 
 end LanceModel.C25
